@@ -52,6 +52,7 @@ LEVEL_TEXT = ('Model checking: (dynamic) every public function on every curve of
 LEVEL_NOTE = 'Dynamic half bounded by the curve profile and the registered argument patterns (uncovered functions are listed in the evidence); the static half is a program-site enumeration, not an execution enumeration.'
 
 MODULES = monitor.PACKAGE_MODULES
+NO_INT_MODE = True      # C20 varies the dtype itself (representation 'int')
 REPS = ('C', 'F', 'view', 'int', 'ro')
 
 
